@@ -343,7 +343,39 @@ func runRoundScenario(seed uint64, size int, t *Trace) error {
 		}()
 		sink.take()
 		t0 := time.Now().Unix()
-		ok := c.VerifSyncRound(lat)
+		// fault: the server map cannot be written during this round (a directory sits at its path). The client
+		// is allowed to die of it (the code panics on purpose) but not to live on with a list in memory that is
+		// not the list on disk: if it survives, the round is recorded and compared like any other.
+		mapPath := filepath.Join(dir, client.GCAServerMapFile)
+		fault := r.Chance(8)
+		if fault {
+			if os.Rename(mapPath, mapPath+".aside") == nil {
+				os.Mkdir(mapPath, 0755)
+			} else {
+				fault = false
+			}
+		}
+		ok, died := func() (ok bool, died bool) {
+			defer func() {
+				if recover() != nil {
+					died = true
+				}
+			}()
+			return c.VerifSyncRound(lat), false
+		}()
+		if fault {
+			os.Remove(mapPath)
+			os.Rename(mapPath+".aside", mapPath)
+			t.Count(fmt.Sprintf("round.map-write-fault:died=%v", died))
+		}
+		if died {
+			close(stop)
+			wg.Wait()
+			if !fault {
+				t.Line("cl.roundfault what=client-panicked-without-a-fault => PANIC")
+			}
+			break
+		}
 		sink.settle(40*time.Millisecond, 600*time.Millisecond)
 		close(stop)
 		wg.Wait()
